@@ -152,8 +152,12 @@ static int icmd_pos;		/* icmd[] position */
 /* read s before reading from the terminal */
 void term_push(char *s, int n)
 {
+	if (ibuf_pos > ibuf_cnt)
+		ibuf_pos = ibuf_cnt;
 	n = MIN(n, sizeof(ibuf) - ibuf_cnt);
-	memcpy(ibuf + ibuf_cnt, s, n);
+	/* insert before the input that has not been read yet */
+	memmove(ibuf + ibuf_pos + n, ibuf + ibuf_pos, ibuf_cnt - ibuf_pos);
+	memcpy(ibuf + ibuf_pos, s, n);
 	ibuf_cnt += n;
 }
 
